@@ -32,6 +32,32 @@ from ..interp import Interp, Obj, has_unknown, unknown_atoms, RangeVal
 from ..plf import Rat, Sym, Fn, find_atoms, rpow
 from ..report import AnalysisError
 
+def no_carried_state(rep, ix, top, rule):
+    """per-sensor independence: nothing computed for one sensor (or layer) may leak into the next loop iteration"""
+    Ic = Interp(ix)
+    for n in ast.walk(top.node):
+        if isinstance(n, ast.For):
+            assigned = []
+            for x in ast.walk(ast.Module(body=n.body, type_ignores=[])):
+                if isinstance(x, ast.Name) and isinstance(x.ctx, ast.Store) and x.id not in assigned:
+                    assigned.append(x.id)
+            tnames = [x.id for x in ast.walk(n.target) if isinstance(x, ast.Name)]
+            for nm in assigned:
+                if nm in tnames:
+                    continue
+                only_aug = all(isinstance(w, ast.AugAssign) for w in ast.walk(ast.Module(body=n.body, type_ignores=[]))
+                               if isinstance(w, (ast.Assign, ast.AugAssign)) and
+                               any(isinstance(t, ast.Name) and t.id == nm for t in ast.walk(w.targets[0] if isinstance(w, ast.Assign) else w.target)))
+                if only_aug:
+                    continue
+                if Ic._is_read_before_write(n.body, nm):
+                    rep.violation(rule, "%s: `%s` in `for %s in %s`" % (top.fq, nm, norm_text(n.target), norm_text(n.iter)),
+                                  "`%s` is assigned on some paths of the loop body only and read on others: the value computed for the "
+                                  "previous %s is used for the next one" % (nm, norm_text(n.target)), top.where(n))
+    if not any(o_["rule"] == rule for o_ in rep.obligations):
+        rep.ok(rule, top.fq + ": projection loops carry no value from one sensor / layer to the next")
+
+
 def _read_component(v, i, j, k):
     """element [i, j, k] of the returned separations: follow setitem(...) layers (stores at [..., k]) and epsilon offsets"""
     from ..elem import element
@@ -529,29 +555,7 @@ def projection_rules(rep, ix, fx, cls, om):
             rep.check("wfs_pos" in inner_inits and "wfs_subap_diameters" in inner_inits, "project.nesting",
                       top.fq + ": per-sensor lists are re-created for every layer",
                       "statements at the top of the layer loop assign %s" % inner_inits, top.where(n))
-    # per-sensor independence: nothing computed for one sensor (or layer) may leak into the next iteration
-    Ic = Interp(ix)
-    for n in ast.walk(top.node):
-        if isinstance(n, ast.For):
-            assigned = []
-            for x in ast.walk(ast.Module(body=n.body, type_ignores=[])):
-                if isinstance(x, ast.Name) and isinstance(x.ctx, ast.Store) and x.id not in assigned:
-                    assigned.append(x.id)
-            tnames = [x.id for x in ast.walk(n.target) if isinstance(x, ast.Name)]
-            for nm in assigned:
-                if nm in tnames:
-                    continue
-                only_aug = all(isinstance(w, ast.AugAssign) for w in ast.walk(ast.Module(body=n.body, type_ignores=[]))
-                               if isinstance(w, (ast.Assign, ast.AugAssign)) and
-                               any(isinstance(t, ast.Name) and t.id == nm for t in ast.walk(w.targets[0] if isinstance(w, ast.Assign) else w.target)))
-                if only_aug:
-                    continue
-                if Ic._is_read_before_write(n.body, nm):
-                    rep.violation("project.no-carried-state", "%s: `%s` in `for %s in %s`" % (top.fq, nm, norm_text(n.target), norm_text(n.iter)),
-                                  "`%s` is assigned on some paths of the loop body only and read on others: the value computed for the "
-                                  "previous %s is used for the next one" % (nm, norm_text(n.target)), top.where(n))
-    if not any(o_["rule"] == "project.no-carried-state" for o_ in rep.obligations):
-        rep.ok("project.no-carried-state", top.fq + ": projection loops carry no value from one sensor / layer to the next")
+    no_carried_state(rep, ix, top, "project.no-carried-state")
     # copies: in-place translation must not reach the stored base positions
     sm = fx.summary(top)
     bad = [ev for ev in sm.attr_mut.get("subap_positions", []) if ev.origin[0] == "VA" and ev.kind == "data"]
